@@ -181,4 +181,4 @@ def body(check):
     analyse_check_end(proj, res)
     analyse_entry_points(proj, res)
     check.inventory.update(info)
-    report(check, res, C07_RULES + ("DRV-IT-STAMP", "DRV-RESET"))
+    report(check, res, C07_RULES + ("DRV-IT-STAMP", "DRV-RESET", "DRV-FORWARD"))
